@@ -60,6 +60,23 @@ func trailingNativeLoops() []*e1.Program {
 
 func acceptFixed() []*e1.Program {
 	return []*e1.Program{
+		G("acc-loop-condition-of-defined-bool-type", `
+type flag bool
+var more flag = true
+n := 0
+for more {
+	YIELD(n)
+	n++
+	more = n < 3
+}
+for i := 0; flag(i < 2); i++ {
+	YIELD(10 + i)
+}
+ok := flag(true)
+for ; ok; ok = !ok {
+	YIELD(20)
+}
+RETNIL`, "for:cond-defined-bool"),
 		G("acc-break-in-trailing-native-for", `
 if tr.B(1) {
 	YIELD(1)
